@@ -185,7 +185,8 @@ PROPS = {
         "n": {"quick": 60, "thorough": 1500},
         "race": True,
         "compare": "member",
-        "cone": ["Conc", "Close", "CloseDefs", "CloseLemmas", "CloseRun"] + ["CloseShard%02d" % i for i in range(13)],
+        "cone": ["Conc", "Close", "CloseDefs", "CloseLemmas", "CloseRun", "GeneratedSkel", "CloseSkel", "CloseSkelOk"] + ["CloseShard%02d" % i for i in range(13)],
+        "diagnose": "From Scrapli Require Import CloseSkel.\nFrom Coq Require Import String List.\nOpen Scope string_scope.\nEval vm_compute in show_failing.\n",
         "kernel_sample": {"quick": 4, "thorough": 12}, "kernel_maxlen": 1500,
         "retry_sigs": r"(C07:leak|C07:hang)",
         "timeout": {"quick": 1500, "thorough": 6000},
